@@ -48,11 +48,11 @@ def run(ctx):
     jobs = []
     dm = clone_dir(d, "ip_mc")
     write_cfg(dm / "run.cfg", "Spec", {"Alphabet": ALPHA_A, "MaxLen": 5 if q else 6},
-              invariants=["TypeOK", "MachineAgrees", "DeadIsDead", "SanityInv"])
+              invariants=["TypeOK", "MachineAgrees", "DeadIsDead", "SanityInv"] + (["RunInv"] if q else []))
     jobs.append({"dir": dm, "module": "IPTextMC", "cfg": "run.cfg", "label": "ip-mc"})
     dmb = clone_dir(d, "ip_mc_b")
     write_cfg(dmb / "run.cfg", "Spec", {"Alphabet": ALPHA_B, "MaxLen": 5 if q else 6},
-              invariants=["MachineAgrees", "DeadIsDead", "SanityInv"])
+              invariants=["MachineAgrees", "DeadIsDead", "SanityInv", "RunInv"])
     jobs.append({"dir": dmb, "module": "IPTextMC", "cfg": "run.cfg", "label": "ip-mc-brackets"})
 
     char_jobs = []
@@ -73,7 +73,9 @@ def run(ctx):
         tok_jobs.append({"dir": dt, "module": "IPTokGen", "cfg": "run.cfg", "label": "ip-gen-tok-" + tag, "timeout": 2400})
 
     njobs = names_jobs(ctx, dn, True, "twins", small=q)   # thorough: the quick-size C03 families
-    par_tlc(ctx, jobs + char_jobs + tok_jobs + njobs, parallel=4)
+    # longest first
+    order = tok_jobs[:1] + list(reversed(char_jobs)) + jobs + njobs + tok_jobs[1:]
+    par_tlc(ctx, order, parallel=4)
 
     # ---- 3: replay ---------------------------------------------------------
     total = {}
